@@ -67,7 +67,7 @@ theorem gen_xfit_eq : Gen.Tables.xfSingleAiptw = crossfit ∧ Gen.Tables.xfDoubl
     Gen.Tables.xfSingleTmle = crossfit ∧ Gen.Tables.xfDoubleTmle = crossfit := ⟨rfl, rfl, rfl, rfl⟩
 
 example : (Gen.Tables.tmle true).sig 1 = spec 1 ∧ (Gen.Tables.tmle false).sig 1 = { writes := some 1, blocked := true } ∧
-    (Gen.Tables.monteCarlo).sig 4 = fitS [0, 1] := by decide
+    (Gen.Tables.monteCarlo).sig 5 = fitS [0, 1] ∧ (Gen.Tables.monteCarlo).sig 4 = spec 4 := by decide
 
 /-- **gen_clsByName_eq** — the lookup the driver uses (generated) agrees with the hand-written one on every name -/
 theorem gen_clsByName_eq (name : String) (b : Bool) : Gen.Tables.clsByName name b = clsByName name b := by
@@ -122,6 +122,33 @@ theorem gen_guard_complete (name : String) (b : Bool) (C : Cls) (h : Gen.Tables.
     out C (run C init ops) o = .error ↔
       (C.sig o.m).blocked = true ∨ ∃ k ∈ (C.sig o.m).req, ∀ o' ∈ ops, wr C k o' = false :=
   P11.guard_complete (gen_tables_all name b C h).1 ops (gen_calm name b C h ops) o hf
+
+/-- **gen_reports_keep_state** — in every table derived from the source, a call of a method that the effect analysis
+    found to assign no visible state on any path (no slot) and that is not a fit -- every `summary`, `run_diagnostics`,
+    `positivity`, `standardized_mean_differences`, `plot_*` -- leaves the object as it was, raising or not; hence
+    (`observers_erasable`) such calls can be struck out of any history.  A reporting method that starts to assign or
+    mutate `self.*` is no longer of this kind: the analysis makes it a specification / fit (the generated table differs
+    from the hand table), emits a register, or refuses the class, and the theorems of this file stop compiling. -/
+theorem gen_reports_keep_state (name : String) (b : Bool) (C : Cls) (h : Gen.Tables.clsByName name b = some C)
+    (s : State) (o : Op) (hw : (C.sig o.m).writes = none) (hf : (C.sig o.m).isFit = false) :
+    observer C o = true ∧ next C s o = s := by
+  have hs := (L11.clean_sig (gen_tables_all name b C h).2 o.m).1
+  have ho : observer C o = true := by unfold observer; simp [hw, hf, hs]
+  exact ⟨ho, P11.observer_keeps_state s o ho⟩
+
+example : ∃ C, Gen.Tables.clsByName "DoubleCrossfitTMLE" false = some C ∧ (C.sig 4).writes = none ∧
+    (C.sig 4).isFit = false ∧ (C.sig 4).needsFit = true := ⟨_, rfl, by decide, by decide, by decide⟩
+
+/-- **gen_spec_order_irrelevant** — for every generated table: specification calls of pairwise different slots may be
+    made in any order (e.g. the labelled covariate models of `MonteCarloGFormula`) -/
+theorem gen_spec_order_irrelevant (name : String) (b : Bool) (C : Cls) (h : Gen.Tables.clsByName name b = some C)
+    {l₁ l₂ : List Op} (p : l₁.Perm l₂) (hs : ∀ o ∈ l₁, ((C.sig o.m).writes).isSome = true)
+    (hd : ∀ x ∈ l₁, ∀ y ∈ l₁, x ≠ y → (C.sig x.m).writes ≠ (C.sig y.m).writes) (s : State) :
+    run C s l₁ = run C s l₂ :=
+  P11.spec_order_irrelevant (gen_tables_all name b C h).1 (gen_tables_all name b C h).2 p hs hd s
+
+example : (Gen.Tables.monteCarlo.sig 3).writes = some 3 ∧ (Gen.Tables.monteCarlo.sig 4).writes = some 4 ∧
+    Gen.Tables.monteCarlo.nslots = 5 := by decide
 
 example : ((Gen.Tables.tmle true).sig 3).isFit = true ∧
     out (Gen.Tables.tmle true) (run (Gen.Tables.tmle true) init [⟨0, 0, false⟩, ⟨1, 1, false⟩, ⟨6, 2, false⟩]) ⟨3, 3, false⟩ = .error ∧
